@@ -9,6 +9,7 @@ vars == <<tid, l, verdict>>
 
 KeyOf(e, i) == IF e.multi THEN e.val[i] + 2 * e.o2[i]
                ELSE CASE e.fl = "obj" -> e.val[i]
+                      [] e.fl = "objneg" -> -e.val[i]
                       [] e.fl = "le"  -> e.val[i] - e.target
                       [] e.fl = "ge"  -> e.target - e.val[i]
                       [] e.fl = "eq"  -> Abs(e.val[i] - e.target)
